@@ -315,11 +315,18 @@ func c15Parse(cs *Case, r *rand.Rand) {
 				allOK = false
 			}
 		}
-		m[fmt.Sprintf("%sk%d", cdiPrefix, i)] = val
+		// every key that starts with the prefix is a CDI key, whatever follows
+		suffix := []string{"k%d", "vendor.com_gpu_%d", "vendor.com/class%d", "a/b/%d", "%d/", "/%d", "K %d", "%d", strings.Repeat("n", 70) + "%d"}[r.Intn(9)]
+		if i == 0 && chance(r, 10) {
+			suffix = "%.0d" // the bare prefix
+		}
+		m[cdiPrefix+fmt.Sprintf(suffix, i)] = val
 	}
 	if chance(r, 50) {
+		// near misses of the prefix are foreign keys
 		m["foreign.io/key"] = "not a device"
 		m["cdi.k8s.io"] = "also/not=a,device" // no trailing slash: not a CDI key
+		m[pickStr(r, "cdi.k8s.iox/y", "x/cdi.k8s.io/y", "CDI.K8S.IO/k", " cdi.k8s.io/k", "cdi.k8s.io.x/k", "cdi.k8s.i/o/k")] = "not-qualified"
 	}
 	var keys, devs []string
 	var err error
